@@ -441,10 +441,11 @@ public:
 
         operator bool() {
             if (!this->await_ready()) {
-                return this->wait();
-            } else {
-                return this->await_resume();
+                //don't use wait() here - it is function of the base class, which calls
+                //await_resume() of the base class, which doesn't fetch the next value
+                this->sync();
             }
+            return this->await_resume();
         }
         bool await_resume() {
             return this->_owner.check_next();
